@@ -39,6 +39,8 @@ TABLE = [
     ("fix-assert-tuple", [], "assert (\n    y ==\n    1,\n    2\n)", [0, 1, 2, 3, 4, 5, 6], False),
     ("fix-empty-sequence-comparison", [], "w = 1 + (y == [])", [0, 1, 2, 3, 4, 5, 6, 7], False),
     ("fix-empty-sequence-comparison", [], "w = -(y != []) + (y == ())", [0, 1, 2, 3, 4, 5, 6, 7], False),
+    ("use-walrus-if", [], "t = y, 2\nif t:\n    print(t)", [0, 1, 2, 3, 4, 5, 6], False),
+    ("use-walrus-if", [], "t = yield\nif t is None:\n    print(t)", [2, 6], False),
 ]
 
 
